@@ -28,6 +28,8 @@ THEOREMS = [
     "FaxVerif.C04.and_lazy2",
     "FaxVerif.C04.ite_lazy",
     "FaxVerif.C04.guarded_second",
+    "FaxVerif.C04.or_step",
+    "FaxVerif.C04.and_step",
     "FaxVerif.C04.event_first_empty_loud",
 ]
 RULE = (
@@ -64,7 +66,7 @@ LEVEL_NOTE = (
 TECHNIQUE = "Lean 4 theorems on the emitted First / and-lowering / Where shapes + text tie + differential execution on fault-biased events"
 DESIGN_REF = "DESIGN.md §4 C04"
 
-GUARDS = {"First", "and", "or", "if"}
+GUARDS = {"First", "and", "or", "if", "sub"}
 
 
 def gen(ctx, i):
@@ -114,5 +116,39 @@ def after(ctx, c):
             ctx.count("event:query-" + cgroup.fault_class(de))
 
 
-_P = CompilerProp(ID, gen, judge, 180, 2000, after=after, use_gxx=True)
+def neg_index_cases(ctx):
+    """`coll[-k]` on events where the collection has fewer than k elements: Python raises IndexError there, the
+    generated code must fail loudly (it emits `.at(-k)`, which throws). (On longer collections Python yields the k-th
+    element from the end while `.at(-k)` still throws: a listed finding, not generated here.) The Lean reference has
+    natural-number indexes: on these events `coll[-k]` and `coll[k-1]` are both out of range, so the reference reads
+    the latter (`lean_query`)."""
+    import copy
+
+    cases = []
+    for b in P.BACKENDS:
+        for k in (1, 2, 3):
+            for coll, bank, m in (("As", "ba", "d"), ("Bs", "bb", "i")):
+                def q(i):
+                    return {"k": "Select", "s": {"k": "ds"}, "x": "e1", "f": {"k": "meth", "o": {"k": "sub", "a": {"k": "coll", "e": {"k": "var", "n": "e1"}, "c": coll, "bank": bank}, "i": i}, "n": m}}
+                evs = []
+                for n in range(k):
+                    ev = qgen.gen_event(ctx.rng, b, {bank: coll}, empty_bias=0.0)
+                    for bk in ev["banks"]:
+                        while len(bk["content"]["v"]) < n:
+                            bk["content"]["v"].append(copy.deepcopy(bk["content"]["v"][0]))
+                        bk["content"]["v"] = bk["content"]["v"][:n]
+                    evs.append(ev)
+                c = cgroup.Case(b, q(-k), ["col1"], "select", evs)
+                c.lean_query = q(k - 1)
+                cases.append(c)
+    return cases
+
+
+class _C04(CompilerProp):
+    def run(self, ctx):
+        self.stream(ctx, neg_index_cases(ctx), "negative-index(too short)")
+        super().run(ctx)
+
+
+_P = _C04(ID, gen, judge, 180, 2000, after=after, use_gxx=True)
 run, search, replay = _P.run, _P.search, _P.replay
